@@ -44,6 +44,13 @@ type c05PoolValue struct {
 	unit   float64 // relative size of one base unit of every asset
 }
 
+// held: what the pool really holds of a denom for its LPs – the booked reserve, but never more than the bank
+// balance at the pool's address (donations make the bank balance larger than the book and belong to nobody;
+// a bank balance below the book means the LPs' tokens went somewhere)
+func held(s *Snapshot, p *ammtypes.Pool, a ammtypes.PoolAsset) sdkmath.Int {
+	return sdkmath.MinInt(a.Token.Amount, s.BalOf(p.Address, a.Token.Denom))
+}
+
 func c05Value(s *Snapshot, p *ammtypes.Pool) (c05PoolValue, bool) {
 	shares := p.TotalShares.Amount
 	if !shares.IsPositive() {
@@ -58,7 +65,7 @@ func c05Value(s *Snapshot, p *ammtypes.Pool) (c05PoolValue, bool) {
 				return c05PoolValue{}, false
 			}
 			pf := price.MustFloat64()
-			b, _ := new(big.Float).SetInt(a.Token.Amount.BigInt()).Float64()
+			b, _ := new(big.Float).SetInt(held(s, p, a).BigInt()).Float64()
 			nav += b * pf
 			unit += pf
 		}
@@ -74,10 +81,10 @@ func c05Value(s *Snapshot, p *ammtypes.Pool) (c05PoolValue, bool) {
 	twf, _ := new(big.Float).SetInt(tw.BigInt()).Float64()
 	lnV, unit := 0.0, 0.0
 	for _, a := range p.PoolAssets {
-		if !a.Token.Amount.IsPositive() {
+		if !held(s, p, a).IsPositive() {
 			return c05PoolValue{}, false
 		}
-		b, _ := new(big.Float).SetInt(a.Token.Amount.BigInt()).Float64()
+		b, _ := new(big.Float).SetInt(held(s, p, a).BigInt()).Float64()
 		w, _ := new(big.Float).SetInt(a.Weight.BigInt()).Float64()
 		lnV += w / twf * math.Log(b)
 		unit += w / twf / b
